@@ -399,7 +399,7 @@ func Repeatable(r *core.Run) {
 }
 
 func check(r *core.Run) {
-	r.Rule = "A: a fixed skeleton of 12 typedef scopes (module, container, nested container, list, grouping used elsewhere, rpc, input, output, notification, submodule, imported module, its submodule); binding space: every set of up to 3 typedefs named t (each with its own units) x 9 reference sites x 3 spellings (t, own prefix, foreign prefix); chain space: leaf -> t -> u -> v -> string with t and u placed at several scopes and modules, bases spelled unprefixed / own-prefixed / foreign, self reference and two-cycle, unknown base, int32 base, units / default / pattern at every level (shared pattern = duplicate); the machine of Types.tla binds and follows the chain one typedef per step, TLC checks Lexical / ForeignExact / NoRepeat; every case is resolved by Process and Entry.Type (kind, name, units, default, DefaultValues(), patterns) compared. Non-trivial = at least two typedefs."
+	r.Rule = "A: a fixed skeleton of 12 typedef scopes (module, container, nested container, list, grouping used elsewhere, rpc, input, output, notification, submodule, imported module, its submodule); binding space: every set of up to 3 typedefs named t (each with its own units) x 9 reference sites x 3 spellings (t, own prefix, foreign prefix); chain space: leaf -> t -> u -> v -> string with t and u placed at several scopes and modules, bases spelled unprefixed / own-prefixed / foreign, self reference and two-cycle, unknown base, int32 base, units / default / pattern at every level (shared pattern = duplicate); the machine of Types.tla binds and follows the chain one typedef per step, TLC checks Lexical / ForeignExact / NoRepeat; every case is resolved by Process and Entry.Type (kind, name, units, default, DefaultValues(), patterns) compared. Non-trivial = at least two typedefs. B: random scope structures (2-3 modules with submodules, scopes nested up to 6, shadowing typedefs, chains across imports, unions of references, enumeration / bits / decimal64 / leafref bases, empty-string units) recorded from the real library and judged by TypesTrace.tla over TypesG.tla (error presence; kind, units, default, DefaultValues(), patterns, fraction-digits, enum / bit names, path, union members per leaf); the multi-revision registry cases with two revisions of one importer pinned to two revisions of the imported module."
 	r.Exhaustive = true
 	r.Assumptions = []string{"re-listing a subset of enum / bit members is outside the claim", "a submodule sees its owner's top level and the owner's other submodules (RFC 7950 5.1)"}
 	cfgs := []string{"bind", "chain_quick", "union"}
